@@ -22,7 +22,9 @@ CHECK = {
             "followed by 8 second operations (thorough: all pairs), some triples, then save and reload by a fresh Manager), "
             "val: for every Validate() conjunct of every section (guards, cross-field comparisons, inlined helpers) the rows it reads set to values "
             "on both sides of every boundary (all combinations for up to 3 rows, keys removed, null/empty collections) — real LoadJSON, real Validate() on "
-            "the resulting object and the Config fields by reflection against the conjunct model; file also: a Manager file with an unknown component, a "
+            "the resulting object and the Config fields by reflection against the conjunct model (round 8c: hashicorp/raft's ValidateConfig is inlined from the module cache, "
+            "so raft's RaftConfig.* fields are swept at constant-1 | constant | constant+1 of its 5ms / 1ms / 1024 bounds and around lease <= heartbeat <= election); "
+            "val also: case kind zero - LoadJSON / Validate on a never-initialised object of every section type, also after a refused unparsable load, must not panic; file also: a Manager file with an unknown component, a "
             "null unknown component, an unknown top-level key, an undefined registered component and duplicate keys (case kind mgr), "
             "env also (round 8): per field two well-formed, one zero and one malformed value through config.Manager with all 14 sections registered - "
             "Manager.LoadJSON then Manager.ApplyEnvVars (menv), and a file holding another accepted value written to disk then Manager.LoadJSONFileAndEnv (menvfile); "
@@ -38,7 +40,7 @@ CHECK = {
     "trusted_base": ["go/ast pattern matcher harness/common/c15_schema.go (fail-closed: unmatched references become kind custom)",
                      "statement recognisers harness/common/c15_util.go for SetIfNotDefault, applyIdentityJSON, Manager.LoadJSONFileAndEnv/ApplyEnvVars (exact shapes; anything else is '?', which the model cannot interpret)",
                      "statement classifier harness/common/c15_seq.go for the per-section call sequences (a statement without return = assignment; anything unrecognised = unknown, on which the interpreter is stuck)",
-                     "statement-shape recognisers harness/common/c15_codec.go (regular expressions over the normalised source of whole statement windows; no match = custom) and c15_validate.go (expression language of Validate conjuncts; no match = opaque)",
+                     "statement-shape recognisers harness/common/c15_codec.go (regular expressions over the normalised source of whole statement windows; no match = custom) and c15_validate.go (expression language of Validate conjuncts; no match = opaque; a library validation function is located through go.mod + the module cache, not found = opaque)",
                      "library codecs: NewMultiaddr/String, peer.Decode/Encode, hex and base64 decode/encode, crypto.UnmarshalPrivateKey/Bytes round-trip what they accept (like time.ParseDuration/String); integer casts uint <-> goleveldb.Compression/Strict preserve the value",
                      "reflection on the exported Config struct field named by the translator for eff/eff2",
                      "in-process net/http/httptest server and a closed loopback port standing for remote sources",
